@@ -115,6 +115,12 @@ CHECKS = {
         "text": "union / least_upper_bound / pseudo_join / widen must contain every operand, intersection every common member; eval(n), min/max (signed and unsigned), cardinality, solution(v) for every v, is_empty/is_integer/is_top must agree exactly with the member set computed from (bits, stride, lb, ub). Enumerated over all canonical intervals of small width, generated with sampled members at 8-64 bits.",
         "note": "Off-lattice upper bounds (writable by a caller, meaning undocumented) are outside the oracle; widen is only checked for containment.",
     },
+    "C25": {
+        "level": "exploration",
+        "technique": "property-based testing + bounded enumeration: generated comparison constraints over the shapes the balancer handles, ALL assignments enumerated (numpy) as the oracle for the returned satisfiability flag and bounds",
+        "text": "Generated constraints (and the complete set of one-variable shape x comparison x constant combinations at width 3) are passed to claripy.constraint_to_si and backends.vsa.constraint_to_si; all assignments (<= 2^16) are enumerated: if any satisfies the constraint the flag must be True, and for every returned (expression, bound) the expression's value under every satisfying assignment must be a member of the bound's member set (reversed intervals read as delayed byte swaps). End to end, SolverReplacement(complex_auto_replace) and SolverHybrid(exact=False) must keep every feasible value of each variable within [min, max] and stay satisfiable.",
+        "note": "Exceptions escaping constraint_to_si are counted in evidence but are not violations of this property; variables are unannotated (TOP).",
+    },
     "C26": {
         "level": "exploration",
         "technique": "property-based testing: generated constraint sets pinning boundary values of every sort; every value returned by eval/batch_eval/min/max re-asserted in an independent Z3 query built from the IR",
